@@ -151,6 +151,9 @@ pub proof fn axiom_no_witness(tx: Transaction, j: int)
     ensures out_wit_empty(tx.output@[j].witness)
 {}
 impl Transaction {
+    /// `has_witness` (iterator `any` closures): ASSUMED to compute has_witness_spec; C02 unit c02_witness_empty proves the per-witness emptiness tests
+    #[verifier::external_body]
+    pub fn has_witness(&self) -> (r: bool) ensures r == has_witness_spec(*self) { unimplemented!() }
     /// `scaled_size` is written with iterator closures (`iter().map(..).sum()`), outside Verus' fragment: ASSUMED to return the
     /// wire-format length with non-witness bytes scaled by `scale_factor`; the bounded Kani unit c12_size compares it with the real encoder
     #[verifier::external_body]
